@@ -325,6 +325,11 @@ def member_pool(rng):
     # (class 2 instance 0 is the class-level instance of the Logix object class: not the instance that holds the tags)
     for c, i, a in ((1, 1, 3), (2, 1, 1), (2, 1, 2), (1, 1, 7), (0x66, 1, 1), (2, 0, 1), (2, 0, 2), (2, 0, 4), (2, 1, 4)):
         pool.append(lambda c=c, i=i, a=a: cpppo.dotdict(service=0x0e, path=num(c, i, a), get_attribute_single=True))
+    # writes whose store itself cannot succeed (computed / read-only class-level attributes of the Logix object class, an attribute that does not exist): an error reply,
+    # like on their own, and the members after them still run
+    for c, i, a in ((2, 0, 2), (2, 0, 1), (2, 0, 4), (2, 1, 9)):
+        pool.append(lambda c=c, i=i, a=a: cpppo.dotdict(service=0x4d, path=num(c, i, a), write_tag={'elements': 1, 'type': 0xc3, 'data': [5]}))
+        pool.append(lambda c=c, i=i, a=a: cpppo.dotdict(service=0x53, path=num(c, i, a), write_frag={'elements': 1, 'offset': 0, 'type': 0xc3, 'data': [5]}))
     return pool
 
 
